@@ -135,6 +135,7 @@ Definition get_var_str (size nul idx datalen:Z) (data:list Z) : option (list Z) 
     else (None, true, 0, i2 + l, true).
 
 (* ---------- setters ---------- *)
+Fixpoint until_zero (l:list Z) : list Z := match l with [] => [] | x :: r => if x =? 0 then [] else x :: until_zero r end.
 Fixpoint exec_w (r:env) (w:wstmt) (data:list Z) : option (list Z) :=
   match w with
   | WSkip => Some data
@@ -144,6 +145,7 @@ Fixpoint exec_w (r:env) (w:wstmt) (data:list Z) : option (list Z) :=
   | WStr len a => Some (data ++ add_str len (arg_txt (e_args r) a))
   | WAISStr len a => Some (data ++ add_ais_str (zlen data) len (arg_txt (e_args r) a))
   | WVarStr mx a => Some (data ++ add_var_str (zlen data) mx (arg_txt (e_args r) a))
+  | WList n a => Some (data ++ flat_map (add_int n) (until_zero (arg_txt (e_args r) a)))
   | WIf c t e => if iub r c then None else if ieval r c =? 0 then exec_w r e data else exec_w r t data
   end.
 
